@@ -62,6 +62,8 @@ enum Ins {
     Divert(Target),
     TunnelCall(String),
     TunnelRet,
+    /// `->-> target`
+    TunnelRetTo(Target),
     Thread(String),
     CallStmt(Expr),
     Return(Option<Expr>),
@@ -293,6 +295,32 @@ impl Compiler {
             }
             Stmt::TunnelReturn => {
                 self.emit(Ins::TunnelRet);
+            }
+            Stmt::TunnelReturnTo(t) => {
+                self.emit(Ins::TunnelRetTo(t.clone()));
+            }
+            Stmt::SeqBlock(kind, elems) => {
+                // L3b: the block form of a sequence is made of lines like the block conditional
+                // (L2): every element starts with a line end, the closing brace ends one
+                let id = self.seq_id;
+                self.seq_id += 1;
+                let head = self.emit(Ins::Seq(id, kind.clone(), vec![], 0));
+                let mut pcs = vec![];
+                let mut jumps = vec![];
+                for e in elems {
+                    pcs.push(self.ins.len());
+                    self.emit(Ins::Eol);
+                    for st in e {
+                        self.stmt(st);
+                    }
+                    jumps.push(self.emit(Ins::Jump(0)));
+                }
+                let end = self.ins.len();
+                for j in jumps {
+                    self.ins[j] = Ins::Jump(end);
+                }
+                self.ins[head] = Ins::Seq(id, kind.clone(), pcs, end);
+                self.emit(Ins::Eol);
             }
             Stmt::Thread(t) => {
                 self.emit(Ins::Thread(t.clone()));
@@ -561,7 +589,7 @@ impl<'a> Vm<'a> {
                 self.enter(s, k, Some(st), &from);
                 Ok(pc)
             }
-            Target::Label(l) => {
+            Target::Label(l) | Target::LabelIn(_, l) => {
                 let pc = *self.c.label_entry.get(l).ok_or_else(|| format!("unknown label {l}"))?;
                 // the label's knot/stitch are entered if flow was outside them
                 if let Some((Some(k), st)) = self.c.label_region.get(l).cloned() {
@@ -577,7 +605,7 @@ impl<'a> Vm<'a> {
                 }
                 Ok(pc)
             }
-            Target::End | Target::Done => Err("not a named target".into()),
+            Target::End | Target::Done | Target::KnotArgs(..) => Err("not a named target".into()),
         }
     }
 
@@ -823,6 +851,21 @@ impl<'a> Vm<'a> {
                         self.frame(s).pc = usize::MAX;
                     }
                 }
+                Target::KnotArgs(k, args) => {
+                    // K1b: arguments are evaluated where the divert stands, then bound to the
+                    // knot's parameters as temps of the current frame
+                    let vals: Vec<V> = args.iter().map(|a| self.eval(s, a)).collect();
+                    match self.goto_named(s, &Target::Knot(k.clone()), pc) {
+                        Ok(npc) => {
+                            let params = self.c.params.get(&k).cloned().unwrap_or_default();
+                            for (p, v) in params.iter().zip(vals) {
+                                self.frame(s).temps.insert(p.clone(), v);
+                            }
+                            self.frame(s).pc = npc;
+                        }
+                        Err(e) => s.error = Some(e),
+                    }
+                }
                 named => match self.goto_named(s, &named, pc) {
                     Ok(npc) => self.frame(s).pc = npc,
                     Err(e) => s.error = Some(e),
@@ -839,6 +882,19 @@ impl<'a> Vm<'a> {
                 let th = s.threads.last_mut().unwrap();
                 if th.len() > 1 && th.last().unwrap().kind == FrameKind::Tunnel {
                     th.pop();
+                } else {
+                    s.error = Some("->-> outside a tunnel".into());
+                }
+            }
+            Ins::TunnelRetTo(t) => {
+                // F1b: leave the tunnel, then go to `t` instead of back to the caller
+                let th = s.threads.last_mut().unwrap();
+                if th.len() > 1 && th.last().unwrap().kind == FrameKind::Tunnel {
+                    th.pop();
+                    match self.goto_named(s, &t, pc) {
+                        Ok(npc) => self.frame(s).pc = npc,
+                        Err(e) => s.error = Some(e),
+                    }
                 } else {
                     s.error = Some("->-> outside a tunnel".into());
                 }
